@@ -105,6 +105,31 @@ impl s2n_quic::provider::random::Generator for Random {
     }
 }
 
+/// keyed stateless reset tokens (the default provider of s2n-quic never sends stateless resets)
+struct ResetTokens(u64);
+
+impl s2n_quic::provider::stateless_reset_token::Provider for ResetTokens {
+    type Generator = Self;
+    type Error = core::convert::Infallible;
+    fn start(self) -> Result<Self, Self::Error> {
+        Ok(self)
+    }
+}
+
+impl s2n_quic::provider::stateless_reset_token::Generator for ResetTokens {
+    const ENABLED: bool = true;
+    fn generate(&mut self, local_connection_id: &[u8]) -> s2n_quic_core::stateless_reset::Token {
+        let mut h = self.0;
+        for b in local_connection_id {
+            h = mix(h ^ *b as u64);
+        }
+        let mut t = [0u8; 16];
+        t[..8].copy_from_slice(&mix(h ^ 1).to_le_bytes());
+        t[8..].copy_from_slice(&mix(h ^ 2).to_le_bytes());
+        t.into()
+    }
+}
+
 /// the application payload: a fixed function of (seed, stream id, direction, absolute offset);
 /// 8 bytes per 64-bit block so that a displacement by any amount shows
 #[inline]
@@ -157,6 +182,8 @@ fn addr_id(a: &s2n_quic_core::inet::SocketAddress) -> u64 {
 // ------------------------------------------------------------------------------------------
 
 const RECORD_CAP: usize = 4000;
+/// max_handshake_duration of both endpoints (the s2n-quic default, set explicitly)
+const HANDSHAKE_MS: u64 = 10_000;
 const PROC_CAP: usize = 6000;
 
 // frame record kinds
@@ -210,6 +237,8 @@ struct Ep {
     processed: Vec<(u64, u64, u64)>,
     emitted: HashSet<(u64, u64, u64)>,
     handshake_rx_us: i128, // first Handshake packet received (server: address validated)
+    tp_rx: u64,            // the peer's transport parameters were received (idle timeout negotiated)
+    conn_start_us: u64,
 }
 
 #[derive(Default)]
@@ -294,6 +323,9 @@ impl event::Subscriber for Sub {
 
     fn create_connection_context(&mut self, _meta: &events::ConnectionMeta, _info: &events::ConnectionInfo) -> Self::ConnectionContext {
         let mut s = self.sh.lock().unwrap();
+        if s.ep[self.ep].conn_started == 0 {
+            s.ep[self.ep].conn_start_us = now_us();
+        }
         s.ep[self.ep].conn_started += 1;
     }
 
@@ -320,6 +352,7 @@ impl event::Subscriber for Sub {
     fn on_transport_parameters_received(&mut self, _c: &mut (), _meta: &events::ConnectionMeta, event: &events::TransportParametersReceived) {
         let tp = &event.transport_parameters;
         let mut s = self.sh.lock().unwrap();
+        s.ep[self.ep].tp_rx = 1;
         let ep = self.ep as i128;
         for (k, v) in [
             (K_TP_MAX_DATA, self.peer_conn_window),
@@ -875,6 +908,8 @@ fn limits(c: &AppCfg) -> Limits {
         .unwrap()
         .with_max_idle_timeout(Duration::from_millis(c.idle_ms))
         .unwrap()
+        .with_max_handshake_duration(Duration::from_millis(HANDSHAKE_MS))
+        .unwrap()
 }
 
 fn task_begin(sh: &Sh, ep: usize) {
@@ -1007,6 +1042,7 @@ fn start_server(handle: &Handle, c: &AppCfg, sh: &Sh, tls: (String, String)) -> 
         .with_tls((tls.0.as_str(), tls.1.as_str()))?
         .with_event(Sub { ep: 1, sh: sh.clone(), peer_conn_window: c.conn_window })?
         .with_random(Random(Rng::new(c.seed, 2)))?
+        .with_stateless_reset_token(ResetTokens(mix(c.seed ^ 0x7e57)))?
         .with_limits(limits(c))?
         .with_packet_interceptor(Icpt { ep: 1, sh: sh.clone(), full: c.full_records })?
         .start()?;
@@ -1152,6 +1188,8 @@ fn push_ep(out: &mut Vec<V>, e: &Ep) {
         e.tasks_started as V,
         e.tasks_done as V,
         e.last_task_done_us as V,
+        e.tp_rx as V,
+        e.conn_start_us as V,
     ]);
 }
 
@@ -1202,8 +1240,8 @@ fn server_tls(extra_chain: u64) -> (String, String) {
 //        conn_window, max_streams, chunk, read_size, blackhole_after_ms, blackhole_len_ms (0 = forever),
 //        n_uni, delay_ms, idle_ms, fault_until_ms, close_at_end, finish_mode]
 //
-// output: [1, watchdog_hit, sim_end_us, last_progress_us, connect_ok, n_bidi, n_uni, idle_ms, perm_bh,
-//          client: 10 ints, server: 10 ints (push_ep),
+// output: [1, watchdog_hit, sim_end_us, last_progress_us, connect_ok, n_bidi, n_uni, idle_ms, perm_bh, handshake_ms,
+//          client: 12 ints, server: 12 ints (push_ep),
 //          n_flows, flows x 10, n_opened, opened stream ids,
 //          capped, n_records, records x 11]
 
@@ -1289,6 +1327,7 @@ fn e2e_stream(input: &[V]) -> Vec<V> {
         n_uni as V,
         idle_ms as V,
         perm_bh,
+        HANDSHAKE_MS as V,
     ];
     push_ep(&mut out, &s.ep[0]);
     push_ep(&mut out, &s.ep[1]);
@@ -1303,6 +1342,261 @@ fn e2e_stream(input: &[V]) -> Vec<V> {
     out
 }
 
+// ------------------------------------------------------------------------------------------
+// e2e_amp
+// ------------------------------------------------------------------------------------------
+//
+// case: [seed, drop_pm, dup_pm, jitter_ms, delay_ms, chain_extra, n_raw, raw_kinds_mask, raw_per_sender,
+//        fault_until_ms, bytes, corrupt_pm]
+// output: [1, server_id, client_id, n_raw, server_first_handshake_rx_us (-1 = never), connect_ok,
+//          watchdog_hit, wire_capped, n_wire, wire x 7: (t_us, kind, src, dst, len, first byte, class)]
+//   kind 0 = put on the wire by src, 1 = delivered to dst, 2 = marker: the server processed the
+//   first client Handshake packet (address validated); class: see classify()
+
+fn raw_datagram(rng: &mut Rng, kind: u64) -> Vec<u8> {
+    let pick = |rng: &mut Rng, v: &[usize]| v[rng.below(v.len() as u64) as usize];
+    match kind {
+        0 => {
+            // garbage
+            let len = pick(rng, &[1, 5, 20, 21, 40, 43, 100, 600, 1199, 1200, 1201, 1400]);
+            (0..len).map(|_| rng.next() as u8).collect()
+        }
+        1 => {
+            // Initial-shaped long header packet with an unknown version
+            let size = pick(rng, &[60, 1100, 1199, 1200, 1201, 1350, 1472]);
+            let mut v = vec![0xC0 | (rng.next() as u8 & 0x0f)];
+            let ver: u32 = [0x1a2a_3a4a, 0xff00_001d, 0x0000_0002, 0xbaba_baba][rng.below(4) as usize];
+            v.extend_from_slice(&ver.to_be_bytes());
+            v.push(8);
+            for _ in 0..8 {
+                v.push(rng.next() as u8);
+            }
+            v.push(8);
+            for _ in 0..8 {
+                v.push(rng.next() as u8);
+            }
+            v.push(0); // token length
+            let rest = size.saturating_sub(v.len() + 2);
+            v.push(0x40 | ((rest >> 8) as u8 & 0x3f));
+            v.push(rest as u8);
+            while v.len() < size {
+                v.push(rng.next() as u8);
+            }
+            v
+        }
+        2 => {
+            // short header, unknown connection id
+            let len = pick(rng, &[5, 20, 21, 22, 38, 39, 40, 41, 42, 43, 44, 60, 100, 1200]);
+            let mut v: Vec<u8> = (0..len).map(|_| rng.next() as u8).collect();
+            v[0] = 0x40 | (v[0] & 0x3f);
+            v
+        }
+        _ => {
+            // a Version Negotiation packet (long header, version 0), small or padded with versions
+            let size = pick(rng, &[31, 47, 1199, 1200, 1203, 1400]);
+            let mut v = vec![0x80 | (rng.next() as u8 & 0x7f)];
+            v.extend_from_slice(&[0, 0, 0, 0]);
+            v.push(8);
+            for _ in 0..8 {
+                v.push(rng.next() as u8);
+            }
+            v.push(8);
+            for _ in 0..8 {
+                v.push(rng.next() as u8);
+            }
+            while v.len() + 4 <= size {
+                v.extend_from_slice(&[0x1a, 0x2a, 0x3a, 0x4a]);
+            }
+            v
+        }
+    }
+}
+
+fn e2e_amp(input: &[V]) -> Vec<V> {
+    let mut c = Cur::new(input);
+    let seed = c.u64();
+    let drop_pm = c.u64().min(1000);
+    let dup_pm = c.u64().min(1000);
+    let jitter_ms = c.u64().min(2000);
+    let delay_ms = c.u64().clamp(1, 2000);
+    let chain = c.u64().min(6);
+    let n_raw = c.u64().min(8);
+    let raw_mask = c.u64() & 15;
+    let raw_per = c.u64().min(40);
+    let fault_until_ms = c.u64();
+    let bytes = c.u64().min(100_000);
+    let corrupt_pm = c.u64().min(1000);
+
+    let sh = new_shared(seed);
+    sh.lock().unwrap().wire_on = true;
+    let app = AppCfg {
+        seed,
+        n_bidi: 1,
+        n_uni: 0,
+        bytes,
+        stream_window: 65536,
+        conn_window: 262144,
+        max_streams: 10,
+        chunk: 1000,
+        read_size: 0,
+        idle_ms: 8000,
+        watchdog_us: 120_000_000,
+        close_at_end: false,
+        full_records: false,
+        finish_mode: 0,
+    };
+    // the server is the first socket (id 0), then the raw senders, then the client
+    let client_id = 1 + n_raw;
+    let net = NetCfg {
+        seed,
+        drop_pm,
+        dup_pm,
+        corrupt_pm,
+        jitter_ms,
+        delay_ms,
+        max_udp: 65535,
+        fault_until_us: fault_until_ms * 1000,
+        fault_hosts: Some((0, client_id)),
+        ..Default::default()
+    };
+    let raw = move |handle: &Handle, addr: std::net::SocketAddr| -> io::Result<()> {
+        for i in 0..n_raw {
+            let socket = handle.builder().build()?.socket();
+            let mut rng = Rng::new(seed, 900 + i);
+            spawn(async move {
+                let kinds: Vec<u64> = (0..4).filter(|k| raw_mask & (1 << k) != 0).collect();
+                for k in 0..raw_per {
+                    // distinct virtual instants for every raw datagram of the run
+                    let slot = k * n_raw + i;
+                    time::delay(Duration::from_micros(if k == 0 { 1000 + 1700 * i } else { 1700 * n_raw })).await;
+                    let _ = slot;
+                    if kinds.is_empty() {
+                        break;
+                    }
+                    let kind = kinds[rng.below(kinds.len() as u64) as usize];
+                    let d = raw_datagram(&mut rng, kind);
+                    let _ = socket.send_to(addr, Default::default(), d);
+                }
+                // keep the socket registered
+                time::delay(Duration::from_secs(1_000_000)).await;
+                drop(socket);
+            });
+        }
+        Ok(())
+    };
+    let (_end_us, _) = run_sim(net, app, sh.clone(), raw, chain);
+
+    let s = sh.lock().unwrap();
+    let mut out: Vec<V> = vec![
+        1,
+        0,
+        client_id as V,
+        n_raw as V,
+        s.ep[1].handshake_rx_us,
+        s.connect_ok as V,
+        s.watchdog_hit as V,
+        s.wire_capped as V,
+        s.wire.len() as V,
+    ];
+    for r in &s.wire {
+        out.extend_from_slice(r);
+    }
+    out
+}
+
+// ------------------------------------------------------------------------------------------
+// e2e_inject
+// ------------------------------------------------------------------------------------------
+//
+// case: [seed, inject_pm, inject_kinds_mask, inject_from_ms, inject_len_ms, n_bidi, bytes, delay_ms,
+//        drop_pm, jitter_ms, n_uni, chunk, read_size]
+// output: [1, watchdog_hit, connect_ok, n_bidi, n_uni, client x12, server x12, n_flows, flows x10,
+//          injected x6 (random, bit flip, truncation, splice, replay, header+random),
+//          then per endpoint (client, server): proc_capped, n_processed, (space, pn, genuine) x n
+//          sorted by (space, pn); genuine = the peer's tx interceptor emitted a packet with this
+//          space, number and cleartext payload]
+
+fn e2e_inject(input: &[V]) -> Vec<V> {
+    let mut c = Cur::new(input);
+    let seed = c.u64();
+    let inject_pm = c.u64().min(1000);
+    let kinds = c.u64() & 63;
+    let from_ms = c.u64();
+    let len_ms = c.u64();
+    let n_bidi = c.u64().clamp(1, 16);
+    let bytes = c.u64().min(400_000);
+    let delay_ms = c.u64().clamp(1, 1000);
+    let drop_pm = c.u64().min(300);
+    let jitter_ms = c.u64().min(500);
+    let n_uni = c.u64().min(8);
+    let chunk = c.u64().clamp(1, 1 << 20);
+    let read_size = c.u64().min(1 << 20);
+
+    let sh = new_shared(seed);
+    let app = AppCfg {
+        seed,
+        n_bidi,
+        n_uni,
+        bytes,
+        stream_window: 100_000,
+        conn_window: 400_000,
+        max_streams: 100,
+        chunk,
+        read_size,
+        idle_ms: 30_000,
+        watchdog_us: 600_000_000,
+        close_at_end: false,
+        full_records: false,
+        finish_mode: 0,
+    };
+    let net = NetCfg {
+        seed,
+        drop_pm,
+        jitter_ms,
+        delay_ms,
+        max_udp: 65535,
+        fault_until_us: (from_ms + len_ms) * 1000,
+        inject_pm,
+        inject_from_us: from_ms * 1000,
+        inject_until_us: (from_ms + len_ms) * 1000,
+        inject_kinds: kinds,
+        ..Default::default()
+    };
+    let (_end_us, injected) = run_sim(net, app, sh.clone(), |_, _| Ok(()), 0);
+
+    let s = sh.lock().unwrap();
+    let mut out: Vec<V> = vec![1, s.watchdog_hit as V, s.connect_ok as V, n_bidi as V, n_uni as V];
+    push_ep(&mut out, &s.ep[0]);
+    push_ep(&mut out, &s.ep[1]);
+    push_flows(&mut out, &s);
+    for k in injected.lock().unwrap().iter() {
+        out.push(*k as V);
+    }
+    for ep in 0..2 {
+        let me = &s.ep[ep];
+        let peer = &s.ep[1 - ep];
+        let mut p = me.processed.clone();
+        p.sort();
+        out.push((me.processed.len() >= PROC_CAP) as V);
+        out.push(p.len() as V);
+        for (space, pn, ck) in p {
+            out.push(space as V);
+            out.push(pn as V);
+            out.push(peer.emitted.contains(&(space, pn, ck)) as V);
+        }
+    }
+    out
+}
+
 fn main() {
-    h_common::main_with(&[("e2e_stream", e2e_stream)]);
+    // e2e_stream_cXX: the same run, judged for one property only by the extracted monitor
+    h_common::main_with(&[
+        ("e2e_stream", e2e_stream),
+        ("e2e_stream_c01", e2e_stream),
+        ("e2e_stream_c02", e2e_stream),
+        ("e2e_stream_c03", e2e_stream),
+        ("e2e_stream_c12", e2e_stream),
+        ("e2e_amp", e2e_amp),
+        ("e2e_inject", e2e_inject),
+    ]);
 }
